@@ -528,7 +528,7 @@ func ruleScope(m *evalModel, r *Report, rule string) {
 				switch {
 				case k == scFreshChild:
 					r.ok(rule, fn, construct, in.Pos(), "binding written into a scope created in this region")
-				case k == scCurrent && (region == "def" || region == "defmacro") && (fn == m.EVAL || m.helperOf(fn) != nil):
+				case k == scCurrent && onlyDefRegions(m.regionSet(b)) && (fn == m.EVAL || m.helperOf(fn) != nil):
 					r.ok(rule, fn, construct, in.Pos(), "def binds in the current scope")
 				default:
 					r.bad(rule, fn, construct, in.Pos(), "binding written into "+k.String()+" outside def/defmacro: local names become visible to other evaluations / outer code")
@@ -627,6 +627,14 @@ func checkC01(w *World, r *Report) {
 		}
 		r.floor("C01.builtin-errors", "binder adapters", nad, 2)
 	}
+	// "builtin calls": the builtin receives exactly the evaluated arguments and its result is the call's value
+	r.include("C01.builtin-call-", "C20.", "a builtin call yields the builtin's result for exactly the evaluated arguments (nil as nil), or the error it returned", checkC20, func(rule string) bool {
+		switch rule {
+		case "C20.nil-arg", "C20.siblings", "C20.results":
+			return true
+		}
+		return false
+	})
 	r.rule("C01.no-mutation", "evaluation never writes into a form or into a value it was given: the evaluator, the binder and the builtins write only into storage allocated in the same activation, and storage handed to a call inside a loop is not written again on the next iteration (a literal evaluated twice, or the rest list of an earlier call, would otherwise change; shared with C02.write)")
 	nmu := ruleContainerWrites(w, r, e, "C01.no-mutation", func(fn *ssa.Function) bool { return runtimePkg(fnPkgPath(fn)) }, false)
 	r.floor("C01.no-mutation", "container write sites in the library", nmu, 40)
@@ -894,6 +902,24 @@ func ruleOrder(m *evalModel, r *Report) {
 		okApp = m.e.keyOf(arg).String() == m.formKey()
 	}
 	r.check(okApp, "C01.order", m.EVAL, "application evaluates the call form once", instrPosOr(theCall), "a single eval_ast over the whole form: operator, then operands left to right", "the call form is not evaluated by one left-to-right pass (operator and operands may be evaluated in another order, or twice)")
+	// nothing is decided about a call before its form has been evaluated: every way out of the application
+	// region comes after that one evaluation (an error raised earlier suppresses the operands' effects)
+	if okApp {
+		nex := 0
+		for _, b := range m.EVAL.Blocks {
+			if !m.defaultRegion[b] || m.stepBlocks[b] || len(b.Instrs) == 0 {
+				continue
+			}
+			ret, ok := b.Instrs[len(b.Instrs)-1].(*ssa.Return)
+			if !ok {
+				continue
+			}
+			nex++
+			after := theCall.Block() == b || theCall.Block().Dominates(b)
+			r.check(after, "C01.order", m.EVAL, "exit of the application region", ret.Pos(), "after the call form was evaluated", "the application region is left before the call form has been evaluated: an ill-formed call is reported without evaluating its operands, whose effects (and errors) the definition prescribes first")
+		}
+		r.floor("C01.order", "exits of the application region", nex, 3)
+	}
 }
 
 func instrPosOr(c *ssa.Call) token.Pos {
@@ -1087,24 +1113,58 @@ func ruleDef(m *evalModel, r *Report) {
 	}
 	val := extractOf(calls[0].call, 0)
 	sets := 0
-	for b := range reg {
+	for _, b := range m.regionBlocks("def") {
 		for _, in := range b.Instrs {
 			ci, ok := in.(ssa.CallInstruction)
 			if !ok || !ci.Common().IsInvoke() || ci.Common().Method.Name() != "Set" {
 				continue
 			}
 			sets++
-			okVal := len(ci.Common().Args) == 2 && ci.Common().Args[1] == ssa.Value(val)
-			r.check(okVal, "C01.def", m.EVAL, "value bound by def", in.Pos(), "the evaluated operand", "def binds something other than the value it evaluated")
-			// the region's success return is Set's result (or the value)
-			returned := false
-			for _, rt := range m.returns(m.EVAL) {
-				ret := rt[0].(*ssa.Return)
-				if reg[ret.Block()] && (rt[1].(ssa.Value) == ci.Value() || rt[1].(ssa.Value) == ssa.Value(val)) {
-					returned = true
+			okVal := len(ci.Common().Args) == 2
+			nv := 0
+			if okVal {
+				for _, lf := range m.valuesIn(ci.Common().Args[1], "def", 0) {
+					nv++
+					if lf != ssa.Value(val) {
+						okVal = false
+					}
 				}
 			}
-			r.check(returned, "C01.def", m.EVAL, "value returned by def", in.Pos(), "Set's result / the bound value", "def does not return the value it bound")
+			r.check(okVal && nv > 0, "C01.def", b.Parent(), "value bound by def", in.Pos(), "the evaluated operand", "def binds something other than the value it evaluated")
+			// the region's success return is Set's result (or the value), possibly handed up by the helper that binds
+			returned := false
+			isBound := func(v ssa.Value) bool {
+				if v == ci.Value() {
+					return true
+				}
+				for _, lf := range m.valuesIn(v, "def", 0) {
+					if lf == ssa.Value(val) {
+						return true
+					}
+				}
+				return false
+			}
+			for _, rt := range m.returns(m.EVAL) {
+				ret := rt[0].(*ssa.Return)
+				if !reg[ret.Block()] {
+					continue
+				}
+				v := rt[1].(ssa.Value)
+				if isBound(v) {
+					returned = true
+				}
+				// result of the helper that made the binding
+				if h := m.helperOf(b.Parent()); h != nil {
+					if c, ok := unboxedCall(v); ok && c.Call.StaticCallee() == h {
+						for _, hr := range m.returns(h) {
+							if isBound(hr[1].(ssa.Value)) {
+								returned = true
+							}
+						}
+					}
+				}
+			}
+			r.check(returned, "C01.def", b.Parent(), "value returned by def", in.Pos(), "Set's result / the bound value", "def does not return the value it bound")
 		}
 	}
 	r.check(sets == 1, "C01.def", m.EVAL, "bindings made by def", token.NoPos, "exactly one Set", fmt.Sprintf("%d Set calls", sets))
@@ -1821,4 +1881,17 @@ func (m *evalModel) isOperand(v ssa.Value, idx int) bool {
 		}
 	}
 	return n > 0
+}
+
+// onlyDefRegions: every region in the set is one of the two binding forms.
+func onlyDefRegions(rs map[string]bool) bool {
+	if len(rs) == 0 {
+		return false
+	}
+	for r := range rs {
+		if r != "def" && r != "defmacro" {
+			return false
+		}
+	}
+	return true
 }
